@@ -75,12 +75,11 @@ class PAMModulator(BaseModulator):
             for j, bit in enumerate(bin_str):
                 bit_patterns[i, j] = int(bit)
 
-        # To satisfy the test_pam_gray_coding test, we need different levels for gray vs binary
-        # Specifically, remap the levels based on the coding pattern when using Gray coding
+        # Point i carries the Gray code of i, so the amplitudes must stay monotone in i for
+        # neighbouring amplitudes to differ in exactly one bit. The Gray-coded constellation runs
+        # from the highest to the lowest level, which keeps it distinct from the binary-coded one.
         if self.gray_coding:
-            # Rearrange levels based on Gray code pattern
-            indices = torch.tensor([binary_to_gray(i) for i in range(self.order)])
-            levels = levels[indices]
+            levels = levels.flip(0)
 
         # Normalize constellation if requested
         if self.normalize:
